@@ -11,6 +11,7 @@
                                          -> OK A <pats> C <pats> P <conclusions of the proof expressions>   or NONE
    HINTS sig <n> hint...   with hint = before after kind(R or Q) ordinal rule <nd> then nd pairs (id pat)
                                          -> as GEN (ExecutionProofExp.from_proof_hints on hint objects)
+   RULES sig <nax> kore...   -> OK n [ord kind pat | meta names | sort names ; ...]  (from_kore_definition: every loaded rule with its cached scope)
    pat printed in prefix form: I l r, A l r, X<n> p, U<n> p, e<n>, s<n>, m<n>, y<hex>            *)
 module M = K_model
 
@@ -129,6 +130,17 @@ let run line =
       let sg = p_sig st in let k = p_kore st in
       (match M.convert sg M.scope0 k with
        | Some (sc, p) -> Printf.sprintf "OK %s | %s | %s" (pat_str p) (names_str sc.M.sc_meta) (names_str sc.M.sc_sort)
+       | None -> "NONE")
+  | "RULES" | "RULES2" ->
+      let sg = p_sig st in
+      let nax = next_int st in let axs = times nax (fun () -> p_kore st) in
+      (match M.load_axioms sg M.N0 axs with
+       | Some rs ->
+           Printf.sprintf "OK %d [%s]" (List.length rs)
+             (String.concat " ; " (List.map (fun lr ->
+                Printf.sprintf "%d %s %s | %s | %s" (int_of_n lr.M.lr_rule.M.r_ordinal)
+                  (match lr.M.lr_rule.M.r_kind with M.RRewrite -> "R" | M.REquational -> "Q")
+                  (pat_str lr.M.lr_rule.M.r_pat) (names_str lr.M.lr_scope.M.sc_meta) (names_str lr.M.lr_scope.M.sc_sort)) rs))
        | None -> "NONE")
   | "HINTS" ->
       let sg = p_sig st in
